@@ -495,6 +495,14 @@ func (h *Handler) isDomainAllowed(domain string) bool {
 
 	domain = strings.ToLower(domain)
 
+	// An address literal is not a domain name. A zoned IPv6 literal such as
+	// "::ffff:7f00:1%x.example.com" is not recognized by net.ParseIP, ends in
+	// an allowed domain, and is turned into 127.0.0.1 by the resolver; it must
+	// go through the network check like any other address.
+	if strings.ContainsAny(domain, ":%") {
+		return false
+	}
+
 	for _, dp := range h.cfg.AllowedDomains {
 		if dp.IsWildcard {
 			// Wildcard pattern: *.example.com matches foo.example.com (single level only)
